@@ -20,6 +20,7 @@ def dispatch (cmd : String) (args : List String) : String :=
   | "RT" => rt args
   | "BKD" => bkd args
   | "BKDR" => bkdr args
+  | "BKDC" => bkdc args
   | "RUN" => runCmd args
   | "RUNPAIR" =>
     -- two runtimes in one process do not share anything: each behaves as it does alone
